@@ -293,6 +293,7 @@ func (s *seqRun) nospcScenarios(h int) {
 							for x, c := range rd.Resok.Data {
 								if c != 0 {
 									s.oracle("C12", "unwritten-bytes-nonzero", fmt.Sprintf("%s: with %d free blocks a WRITE to /a at offset %d failed=%v; /b then took the last block (number %d) and wrote to it; /a was grown to 9 blocks by SETATTR and a READ of its block 8, which was never written, returns byte %#x at %d (and %d bytes that equal /b's)", tag, k, off, failedA, bb[0], c, x, sameBytes(rd.Resok.Data, bdata)))
+									s.oracle("C02", "unwritten-bytes-nonzero", fmt.Sprintf("%s: with %d free blocks a WRITE to /a at offset %d failed=%v; /b then took the last block (number %d) and wrote to it; /a was grown to 9 blocks by SETATTR and a READ of its block 8, which was never written, returns byte %#x at %d (and %d bytes that equal /b's)", tag, k, off, failedA, bb[0], c, x, sameBytes(rd.Resok.Data, bdata)))
 									break
 								}
 							}
@@ -321,6 +322,7 @@ func (s *seqRun) nospcScenarios(h int) {
 					rd = s.srv.NFSPROC3_READ(nfstypes.READ3args{File: mkfh3(b), Offset: 0, Count: 4096})
 				}) && (rd.Status != nfstypes.NFS3_OK || string(rd.Resok.Data) != string(bdata)) {
 					s.oracle("C04", "block-shared-between-files", fmt.Sprintf("%s: with %d free blocks a WRITE to /a at offset %d failed=%v; /b then took the last block; after space was freed /a was written at that offset again and /b no longer reads back what was written to it (status %d)", tag, k, off, failedA, rd.Status))
+					s.oracle("C02", "read-differs-from-what-was-written", fmt.Sprintf("%s: with %d free blocks a WRITE to /a at offset %d failed=%v; /b then took the last block and was written; after space was freed /a was written at that offset again; a READ of /b (status %d) no longer returns what was written to /b: %d of 4096 bytes differ", tag, k, off, failedA, rd.Status, 4096-sameBytes(rd.Resok.Data, bdata)))
 				}
 			}
 			s.coherence()
